@@ -42,8 +42,10 @@ func Encode(o ugo.Object, ids *Ids) string {
 
 // Cyclic marks a value nested deeper than maxDepth: a script can build a cyclic value
 // (`a[0] = a`), which has no finite rendering; streams skip outcomes containing the marker.
-const Cyclic = "!cyclic!"
-const maxDepth = 200
+// The cut is made exactly where the Lean driver's imageOf (fuel 64) makes it, and with the
+// same text (`odeep:0`), so that both sides of a correspondence still agree on such values.
+const Cyclic = "odeep:0"
+const maxDepth = 63
 
 func enc(sb *strings.Builder, o ugo.Object, ids *Ids, depth int) {
 	if depth > maxDepth || sb.Len() > 16<<20 {
